@@ -532,8 +532,11 @@ func init() {
 				return f.String(s)
 			case symstr:
 				return fr.i.asciiOnly(s, "norm.Form.String")
+			case numtext:
+				return s // decimal text of a number: ASCII, already normal
 			}
-			panic("norm.String")
+			fr.i.abort("unsupported", fmt.Sprintf("norm.Form.String of %T", args[1]))
+			return nil
 		},
 		"(golang.org/x/text/unicode/norm.Form).Bytes": func(fr *frame, args []value) value {
 			f := norm.Form(asInt64(args[0]))
@@ -552,8 +555,11 @@ func init() {
 			case symstr:
 				fr.i.asciiOnly(s, "norm.Form.IsNormalString")
 				return true
+			case numtext:
+				return true
 			}
-			panic("norm.IsNormalString")
+			fr.i.abort("unsupported", fmt.Sprintf("norm.Form.IsNormalString of %T", args[1]))
+			return nil
 		},
 		"(golang.org/x/text/unicode/norm.Form).LastBoundary": func(fr *frame, args []value) value {
 			f := norm.Form(asInt64(args[0]))
@@ -675,7 +681,23 @@ func init() {
 			st := (*args[0].(*value)).(structure)
 			return len(st[1].([]value))
 		},
-		"(*strings.Builder).Grow":  func(fr *frame, args []value) value { return nil },
+		"(*strings.Builder).Grow": func(fr *frame, args []value) value {
+			// the real method allocates 2*cap+n bytes: model the run-time outcome of absurd sizes, materialise nothing
+			n, ok := args[1].(int)
+			if !ok {
+				return nil
+			}
+			if n < 0 {
+				panic(targetPanic{iface{t: types.Typ[types.String], v: "strings.Builder.Grow: negative count"}})
+			}
+			if int64(n) > 1<<47 {
+				panic(runtimeErr("makeslice: len out of range"))
+			}
+			if n > 1<<24 {
+				fr.i.abort("cut", fmt.Sprintf("allocation of %d bytes not materialised", n))
+			}
+			return nil
+		},
 		"(*strings.Builder).Reset": func(fr *frame, args []value) value {
 			st := (*args[0].(*value)).(structure)
 			st[1] = []value(nil)
@@ -787,7 +809,14 @@ func init() {
 			return externals["bytes.Compare"](fr, args)
 		},
 		"internal/bytealg.MakeNoZero": func(fr *frame, args []value) value {
-			n := int(asInt64(args[0]))
+			n64 := asInt64(args[0])
+			if n64 < 0 || n64 > 1<<47 {
+				panic(runtimeErr("makeslice: len out of range"))
+			}
+			if n64 > 1<<24 {
+				fr.i.abort("cut", fmt.Sprintf("allocation of %d bytes not materialised", n64))
+			}
+			n := int(n64)
 			out := make([]value, n)
 			for k := range out {
 				out[k] = uint8(0)
